@@ -167,8 +167,8 @@ GUARD_EPERM = [
     _gd("hwloc_topology_insert_misc_object", "topology", replace=["hwloc_alloc_setup_object", "hwloc_insert_object_by_parent", "hwloc_topology_reconnect"], unwind=1, note="adopted topology => NULL/EPERM, frame = {errno}"),
     _gd("hwloc_distances_remove", "distances", replace=["hwloc_internal_distances_destroy"], note="adopted topology => -1/EPERM, frame = {errno}"),
     _gd("hwloc_distances_remove_by_depth", "distances", unwind=1, note="adopted topology => -1/EPERM, frame = {errno}"),
-    _gd("hwloc_distances_add_create", "distances", replace=["hwloc_backend_distances_add_create"], note="adopted topology => NULL/EPERM, frame = {errno}"),
-    _gd("hwloc_topology_diff_apply", "diff", replace=["hwloc_apply_diff_one"], unwind=1, note="adopted topology => -1/EPERM, frame = {errno}"),
+    _gd("hwloc_distances_add_create", "distances", replace=["hwloc_backend_distances_add_create"], note="adopted topology => NULL/EPERM; invalid kind word (unknown bits, several FROM_ or several MEANS_ bits; all 2^64 words) => NULL/EINVAL; frame = {errno}, backend never reached", min_post=3),
+    _gd("hwloc_topology_diff_apply", "diff", replace=["hwloc_apply_diff_one"], unwind=1, note="adopted topology => -1/EPERM; unknown apply flags => -1/EINVAL; frame = {errno}, no diff entry applied", min_post=3),
 ]
 RESTRICT_GUARD = _gd("hwloc_topology_restrict", "topology", min_post=4,
     note="adopted => EPERM; unknown/inconsistent flags or non-intersecting set => EINVAL; in both cases frame = {errno}; the intersects query is made on (set, allowed set selected by BYNODESET)")
@@ -186,6 +186,8 @@ SHMEM = [
 ]
 PROPS["C19"] = GUARD_EPERM + [RESTRICT_GUARD] + SHMEM
 PROPS["C08"] = [RESTRICT_GUARD]
+PROPS["C13"] = [j for j in GUARD_EPERM if j.name == "hwloc_distances_add_create"]
+PROPS["C16"] = [j for j in GUARD_EPERM if j.name == "hwloc_topology_diff_apply"]
 PROPS["C02"] = [ALLOW_GUARD]
 
 
@@ -250,3 +252,15 @@ C14 = [
     _ma("hwloc_memattr_register", cost=60, note="exactly one of HIGHER/LOWER_FIRST else EINVAL, NULL name EINVAL, duplicate name EBUSY, success appends with next id; <= 2 existing attributes, 2-char names"),
 ]
 PROPS["C14"] = C14
+
+
+# ------------------------------------------------------------------ C05 leaf: base64.c (bounded)
+C05 = [
+    Job(name="base64_roundtrip.n%d" % n, driver="base64.drv.c", entry="hp_base64_roundtrip", mode="plain", unwind=70, min_post=0, cost=30, family="base64",
+        label="bounded", defines={"B64_N": n}, note="decode(encode(x)) == x, lengths, NUL, exact-size buffers, too-small target refused; all byte strings of length %d" % n)
+    for n in (0, 1, 2, 3, 4)
+] + [
+    Job(name="base64_decode_safe", driver="base64.drv.c", entry="hp_base64_decode_safe", mode="plain", unwind=70, min_post=0, cost=60, family="base64",
+        label="bounded", defines={"B64_S": 5}, note="decoder on an arbitrary 5-character string (all byte values) with any target size 0..5 or NULL: memory safe, returns -1 or a length within the target"),
+]
+PROPS["C05"] = C05
